@@ -247,7 +247,11 @@ class Check:
         res = build(props_targets, self.log)
         self.checker_cmds.append("make -C coq -j16 " + " ".join(props_targets) + " Extract/Extract.vo")
         tr_ok, tr_out = res["translate"]
-        self.obligation("translate:/repo->coq/Gen", tr_ok and "PROBLEM" not in tr_out, tr_out.strip()[-800:])
+        mine = [l for l in tr_out.split("\n") if "PROBLEM" in l and problem_concerns(l, self.pid)]
+        other = [l for l in tr_out.split("\n") if "PROBLEM" in l and l not in mine]
+        if other:
+            self.log("translator problems outside this property's model (reported by the checks that own them): %s" % " | ".join(other)[:400])
+        self.obligation("translate:/repo->coq/Gen", tr_ok and not mine, ("\n".join(mine) if mine else tr_out.strip())[-800:])
         for t in props_targets:
             ok, out = res[t]
             src = os.path.join(COQ, t[:-1])  # .vo -> .v
@@ -350,6 +354,55 @@ class Check:
         self.log("done rc=%d obligations=%d/%d evaluations=%d distinct_nontrivial=%d known=%s" %
                  (rc, ndis, nob, self.evaluations, len(self.distinct), sorted(set(self.known))))
         return rc
+
+
+# which properties' models read which regenerated pattern (prefix match); a pattern the translator cannot express is reported
+# by those checks only - any other check still fails through its own theorems or correspondence if it does depend on it
+REGEX_OWNERS = {
+    "re_nvra": ["C13", "C12", "C03", "C10", "C19"],
+    "re_release_": ["C14", "C06", "C07", "C01", "C19"],
+    "re_label": ["C06", "C07", "C01", "C19"],
+    "re_compose_id": ["C15", "C06", "C07", "C19"],
+    "re_compose_date": ["C15", "C06", "C07", "C19"],
+    "re_date_type_respin": ["C15", "C05", "C19"],
+    "re_ci_variant_id": ["C06", "C07", "C11", "C01", "C19"],
+    "re_header_version": ["C07", "C05", "C06", "C19"],
+    "re_split_version": ["C07", "C05", "C19"],
+    "re_implant_md5": ["C06", "C07", "C02", "C19"],
+    "re_module_uid": ["C12", "C03", "C19"],
+    "re_ti00_": ["C05", "C19"],
+    "re_ti_": ["C04", "C06", "C07", "C19"],
+}
+
+
+def problem_concerns(line, pid):
+    m = re.search(r"PROBLEM: regex (\w+)", line)
+    if not m:
+        return True
+    name = m.group(1)
+    for prefix, owners in REGEX_OWNERS.items():
+        if name.startswith(prefix):
+            return pid in owners
+    return True
+
+
+def hand_models_changed(chk=None):
+    """hand-modelled validators whose source changed since the model was written (informational: the tie is the
+    correspondence; a change only makes the sampled checks that exercise them dig deeper)"""
+    try:
+        want = json.load(open(os.path.join(VERIF, "harness", "custom_hashes.json")))
+        rep = json.load(open(os.path.join(COQ, "Gen", "report.json")))["validators"]
+    except (OSError, ValueError, KeyError):
+        return []
+    got = {}
+    for ms in rep.values():
+        for m, qual, st in ms:
+            if st.startswith("custom:"):
+                got[qual] = st.split()[0][7:]
+    changed = sorted(q for q in set(want) | set(got) if want.get(q) != got.get(q))
+    if changed and chk is not None:
+        chk.log("hand-modelled validators changed in the source (%s): sampling 5x deeper" % ", ".join(changed))
+    return changed
 
 
 def error_locus(out):
